@@ -285,4 +285,79 @@ theorem steps_safe (ms : List Bool) : ∀ (r : Reader), ∀ x ∈ steps r ms,
       obtain ⟨a, b, c⟩ := ih _ x hx
       exact ⟨a, Nat.le_trans b hs.mono, by rw [c, hs.frame.2]⟩
 
+/-! ## a well-formed RFC 1761 record is read back -/
+
+/-- A packet record as RFC 1761 lays it out (there is no snoop writer in the repository; this is
+    the specification of the format): original length, included length, record length =
+    24 + included length + pad, cumulative drops, seconds, microseconds, data, pad. -/
+structure Rec where
+  orig  : Nat
+  drops : Nat
+  sec   : Nat
+  usec  : Nat
+  data  : Bytes
+  pad   : Bytes
+  deriving Repr, DecidableEq
+
+def WfRec (rc : Rec) : Prop :=
+  rc.data.length ≤ rc.orig ∧ rc.orig < 4294967296 ∧ rc.data.length ≤ maxCaptureLen ∧
+  24 + rc.data.length + rc.pad.length < 4294967296 ∧ rc.drops < 4294967296 ∧ rc.sec < 4294967296 ∧
+  rc.usec < 1000000
+
+instance (rc : Rec) : Decidable (WfRec rc) := by unfold WfRec; infer_instance
+
+def encRec (rc : Rec) : Bytes :=
+  putBe32 rc.orig ++ putBe32 rc.data.length ++ putBe32 (24 + rc.data.length + rc.pad.length) ++
+  putBe32 rc.drops ++ putBe32 rc.sec ++ putBe32 rc.usec ++ rc.data ++ rc.pad
+
+theorem be32_put (n : Nat) (h : n < 4294967296) :
+    be32 (u8 (n / 16777216)) (u8 (n / 65536)) (u8 (n / 256)) (u8 n) = n := by
+  simp only [be32, Gp.Pcap.u8_toNat]
+  omega
+
+/-- Reading a well-formed record (truncated captures included: `data.length < orig`) returns its
+    packet, skips the pad and leaves the stream at the next record. -/
+theorem read_encRec (zc : Bool) (lt cap : Nat) (rc : Rec) (rest : Bytes) (f : Bool) (h : WfRec rc) :
+    let r : Reader := { s := { data := encRec rc ++ rest, fail := f }, linkType := lt, bufCap := cap }
+    (read zc r).out = .pkt { sec := rc.sec, nsec := rc.usec * 1000, caplen := rc.data.length, len := rc.orig, data := rc.data } ∧
+    (read zc r).r.s = { data := rest, fail := f } ∧ (read zc r).r.linkType = lt := by
+  obtain ⟨h1, h2, h3, h4, h5, h6, h7⟩ := h
+  intro r
+  have e_orig := be32_put rc.orig h2
+  have e_incl := be32_put rc.data.length (by omega)
+  have e_rl := be32_put (24 + rc.data.length + rc.pad.length) h4
+  have e_sec := be32_put rc.sec h6
+  have e_usec := be32_put rc.usec (by omega)
+  have hrd : readFull r.s 24 =
+      .got (putBe32 rc.orig ++ putBe32 rc.data.length ++ putBe32 (24 + rc.data.length + rc.pad.length) ++
+        putBe32 rc.drops ++ putBe32 rc.sec ++ putBe32 rc.usec) { data := rc.data ++ (rc.pad ++ rest), fail := f } := by
+    have := readFull_append (putBe32 rc.orig ++ putBe32 rc.data.length ++ putBe32 (24 + rc.data.length + rc.pad.length) ++
+        putBe32 rc.drops ++ putBe32 rc.sec ++ putBe32 rc.usec) (rc.data ++ (rc.pad ++ rest)) f 24
+      (by simp [putBe32]) (by decide)
+    simpa [r, encRec, List.append_assoc] using this
+  have hdata : readFull { data := rc.data ++ (rc.pad ++ rest), fail := f } rc.data.length =
+      .got rc.data { data := rc.pad ++ rest, fail := f } := by
+    by_cases h0 : rc.data.length = 0
+    · have : rc.data = [] := List.eq_nil_of_length_eq_zero h0
+      simp [readFull, this]
+    · exact readFull_append rc.data (rc.pad ++ rest) f rc.data.length rfl h0
+  have hskip : skip { data := rc.pad ++ rest, fail := f } rc.pad.length = (none, { data := rest, fail := f }) := by
+    unfold skip
+    rw [if_pos (by simp)]
+    simp
+  have hnp := bufFor_ok zc { r with s := { data := rc.data ++ (rc.pad ++ rest), fail := f } } rc.data.length
+  have hpad : ((24 + rc.data.length + rc.pad.length : Nat) : Int) - (24 + (rc.data.length : Int)) = (rc.pad.length : Int) := by
+    omega
+  have hfrac : rc.usec * 1000 % 4294967296 = rc.usec * 1000 := Nat.mod_eq_of_lt (by omega)
+  unfold read
+  rw [hrd]
+  simp only [putBe32, List.cons_append, List.nil_append]
+  simp only [e_orig, e_incl, e_rl, e_sec, e_usec, r] at hnp ⊢
+  rw [if_neg (by omega), if_neg (by omega), hpad, if_neg (by omega)]
+  unfold readData
+  simp only [Int.toNat_natCast] at hnp ⊢
+  rw [if_neg hnp, hdata]
+  simp only [hskip, hfrac, normTime_id _ _ (by omega : rc.usec * 1000 < 1000000000)]
+  exact ⟨trivial, trivial, trivial⟩
+
 end Gp.Snoop
